@@ -154,6 +154,88 @@ def r12_1(prog, rep):
         rep.ok(rid, key, tc.loc(), "below its limit an occurrence is counted and run for real")
 
 
+def _severs_links(f, rec):
+    """Does f contain a store `X.data = NULL` that is reached only under `X.data == rec` (X ranging over the child watchers)?"""
+    from ..flow import edge_dominates
+    cfg = f.cfg
+    for b, i, x, line in cfg.all_elems():
+        if not isinstance(x, dict):
+            continue
+        for l, kind, n in writes(x):
+            if not (lv(l).endswith(".data") or lv(l).endswith("->data")) or kind != "assign":
+                continue
+            if int_value(strip_casts(cfg.resolve(n["r"]))) != 0:
+                continue
+            link = lv(l)
+            for g in cfg.blocks:
+                c = cfg.cond(g)
+                if c is None:
+                    continue
+                for si, s_ in enumerate(cfg.blocks[g].succs):
+                    if s_ is None or si in cfg.blocks[g].dead or not edge_dominates(cfg, g, si, b):
+                        continue
+                    for a in cond_atoms(c, si == 0):
+                        if len(a) == 5 and a[0] == "==" and {a[1], a[2]} == {link, rec}:
+                            return True
+    return False
+
+
+def r12_9(prog, rep):
+    """A task record goes back to the pool (and to the next task submitted) in free_task().  Child watchers of executions still in
+    flight point at it; their exit decrements `nsim` through that pointer.  So either no execution can be in flight when the record is
+    freed, or free_task() makes every such watcher forget the record — and the child callback must then cope with a watcher whose
+    task is gone."""
+    rid = "R12.9"
+    # the function that pushes a record onto the free list
+    fr = None
+    for f in prog.fns_in(DAEMON):
+        if not f.cfg:
+            continue
+        for b, i, x, line in f.cfg.all_elems():
+            if isinstance(x, dict):
+                for l, kind, n in writes(x):
+                    if lv(l) == "free_tasks" and kind == "assign" and any(p_["n"] == lv(strip_casts(f.cfg.resolve(n["r"]))) for p_ in f.params):
+                        fr = (f, b, i, line, lv(strip_casts(f.cfg.resolve(n["r"]))))
+    if fr is None:
+        raise AnalysisBroken("R12.9: the function that hands a task record to the free list was not found")
+    f, b, i, line, rec = fr
+    key = "%s/no-watcher-keeps-a-freed-record" % f.name
+    if _severs_links(f, rec):
+        rep.ok(rid, key, f.loc(line), "every child watcher whose data is %s is made to forget it before the record is pooled" % rec)
+    else:
+        # or: the counter is known to be 0 on every path to the push
+        mf = MustFacts(f.cfg)
+        facts = mf.at(b, i) or set()
+        if ("eq", rec + "->nsim", "0") in facts or ("false", rec + "->nsim") in facts:
+            rep.ok(rid, key, f.loc(line), "the record is pooled only with no execution in flight")
+        else:
+            rep.fail(rid, key, f.loc(line), "%s() hands the record to the free list while child watchers of executions in flight may still point at it "
+                     "(cancel or retirement during a run): the next task submitted gets the record, and the old execution's exit decrements *its* run "
+                     "counter — 0 - 1 wraps and a task with a limit is reported not run for ever" % f.name)
+    # the callback that follows the link
+    cb = None
+    for g in prog.fns_in(DAEMON):
+        if not g.cfg:
+            continue
+        for b2, i2, x2, l2 in g.cfg.all_elems():
+            if isinstance(x2, dict):
+                for l, kind, n in writes(x2):
+                    if (lv(l).endswith("->nsim") or lv(l).endswith(".nsim")) and step_of(kind, n) == -1:
+                        cb = (g, b2, i2, l2, lv(l).rsplit("->", 1)[0])
+    if cb is None:
+        raise AnalysisBroken("R12.9: the decrement of the run counter was not found")
+    g, gb, gi, gl, tv = cb
+    key = "%s/link-tested-before-use" % g.name
+    mf = MustFacts(g.cfg)
+    facts = mf.at(gb, gi) or set()
+    nonnull = any(fx in facts for fx in (("true", tv), ("ne", tv, "0"), ("ne", "0", tv)))
+    if _severs_links(f, rec) and not nonnull:
+        rep.fail(rid, key, g.loc(gl), "%s() severs watcher links, but %s() follows the link without testing it: an execution that outlives its task "
+                 "dereferences NULL" % (f.name, g.name))
+    else:
+        rep.ok(rid, key, g.loc(gl), "the watcher's task pointer is %s before it is followed" % ("tested" if nonnull else "never severed"))
+
+
 def r12_2(prog, rep):
     rid = "R12.2"
     incs, decs = [], []
@@ -168,7 +250,13 @@ def r12_2(prog, rep):
                     elif step_of(kind, n) == -1:
                         decs.append((f, b, i, line))
                     elif kind != "decl":
-                        rep.fail(rid, "%s/nsim-write" % f.name, f.loc(line), "nsim is modified other than by ++/--: %s" % show(x))
+                        # a reset to 0 is right where every watcher that points at the record is made to forget it in the same breath
+                        # (the record is on its way to the free list): a store `<watcher>.data = NULL` under `<watcher>.data == record`
+                        rec = lv(l).rsplit("->", 1)[0] if "->" in lv(l) else lv(l).rsplit(".", 1)[0]
+                        if kind == "assign" and int_value(strip_casts(f.cfg.resolve(n["r"]))) == 0 and _severs_links(f, rec):
+                            rep.ok(rid, "%s/nsim-write" % f.name, f.loc(line), "nsim = 0 together with the severing of every watcher link to %s" % rec)
+                        else:
+                            rep.fail(rid, "%s/nsim-write" % f.name, f.loc(line), "nsim is modified other than by ++/--: %s" % show(x))
     # bulk writes (memset/memcpy over a whole task record) modify the counter too: allowed only on a record that has just been
     # taken from the free list, never on a live task (its running children still point at it)
     nbulk = 0
@@ -241,7 +329,22 @@ def r12_2(prog, rep):
     else:
         rep.fail(rid, "%s/child-data" % f.name, f.loc(line), "c->data is set from %s, not from the task %s that was counted" % (datas, tvar))
     # decrement is unconditional in the callback
-    if g.cfg.dominates(gb, g.cfg.exit) or all(gb in g.cfg.dom().get(p, ()) for p in g.cfg.lpreds[g.cfg.exit]):
+    # ... unconditional for a watcher that still has a task: the paths that skip it are those behind `task == NULL`
+    from ..flow import edge_dominates as _ed
+    tvn = lv(strip_casts([l2 for l2, k2, n2 in writes(g.cfg.elem(gb, gi))][0])).split("->")[0]
+    gone = set()
+    for q in g.cfg.blocks:
+        c_ = g.cfg.cond(q)
+        if c_ is None:
+            continue
+        for si_, s__ in enumerate(g.cfg.blocks[q].succs):
+            if s__ is None or si_ in g.cfg.blocks[q].dead:
+                continue
+            if any(a_ in (("false", tvn), ) or (len(a_) == 5 and a_[0] == "==" and {a_[1], a_[2]} == {tvn, "0"}) or a_[:2] == ("false", tvn)
+                   for a_ in cond_atoms(c_, si_ == 0)):
+                gone |= {bb for bb in g.cfg.blocks if _ed(g.cfg, q, si_, bb)}
+    if g.cfg.dominates(gb, g.cfg.exit) or all(gb in g.cfg.dom().get(p, ()) for p in g.cfg.lpreds[g.cfg.exit]) or \
+            (gone and not g.cfg.paths_avoiding(g.cfg.entry, g.cfg.exit, gone | {gb})):
         rep.ok(rid, "%s/dec-unconditional" % g.name, g.loc(gline), "every child exit decrements nsim")
     else:
         rep.fail(rid, "%s/dec-unconditional" % g.name, g.loc(gline), "a path through %s skips the decrement" % g.name)
@@ -463,6 +566,8 @@ def run(prog, rep, tier, snap):
     rep.call(r12_1, prog, rep)
     rep.rule("R12.2", "nsim increment/decrement pairing through the child watcher", 5)
     rep.call(r12_2, prog, rep)
+    rep.rule("R12.9", "no child watcher keeps pointing at a task record that went back to the pool", 2)
+    rep.call(r12_9, prog, rep)
     rep.rule("R12.3", "no function-local static state leaks between calls (definite assignment before use)", 2)
     files = (DAEMON,) if tier == "quick" else (DAEMON, "echsx.c", "echsq.c", "evical.c")
     from ..rules import state
@@ -486,4 +591,7 @@ def run(prog, rep, tier, snap):
     from . import c05
     rep.rule("R05.7", "calendar-level defaults fill only what the event leaves unset; an event's own limit replaces a calendar-wide one (shared with C05)", 4)
     rep.call(c05.r05_7, prog, rep)
+    from . import c13
+    rep.rule("R13.10", "the executor's stdout carries the `not run` report of an occurrence over its limit (shared with C13)", 1)
+    rep.call(c13.r13_10, prog, rep)
 READY = True
